@@ -153,15 +153,36 @@ class ActGen:
                 pat = [r.choice([0, 1, 1, 0, 128, 255, 2, 77]) for _ in range(r.randint(0, 5))]
                 if not ok:
                     pat.append(r.choice([300, -4]))
-                if r.random() < 0.2 and len(pat) <= 2:
+                if ok and r.random() < 0.3 and pat and all(isinstance(x, int) for x in pat):
+                    # the pattern through a list variable that is changed afterwards: the call plays the list as it was then
+                    self.nvar += 1
+                    pv = f"pat{self.nvar}"
+                    self.emit(f"{pv} = {pat}")
+                    self.emit(f"{name}.flash_pattern({pv}, {r.choice([0, 2])})")
+                    self.emit(f"{pv}.append({r.choice([0, 1, 128])})")
+                    if r.random() < 0.5:
+                        self.emit(f"{pv}.remove({pat[0]})")
+                    if r.random() < 0.5:
+                        self.emit(f"{name}.flash_pattern({pv}, 1)")
+                    self.features.add("led.flash:list-variable-mutated-later")
+                elif r.random() < 0.2 and len(pat) <= 2:
                     self.emit(f"{name}.flash_pattern({pat})")   # delay_ms omitted (default 200)
                     self.features.add("led.flash:default-delay")
                 else:
                     self.emit(f"{name}.flash_pattern({pat}, {r.choice([0, 2, 10])})")
         elif kind == "rgb":
-            o = r.choice(["set", "set", "on", "off", "fade", "blink"])
+            o = r.choice(["set", "set", "on", "off", "fade", "blink", "fade-same"])
             self.features.add("rgb." + o)
             c = [self.byte() for _ in range(3)]
+            if o == "fade-same":
+                # a fade to the colour already shown (nothing to interpolate)
+                if ok:
+                    c = [int(x) for x in c]
+                    self.emit(f"{name}.set_color({c[0]}, {c[1]}, {c[2]})")
+                    for _ in range(r.choice([1, 2])):
+                        self.emit(f"{name}.fade({c[0]}, {c[1]}, {c[2]}, duration_ms={r.choice([10, 40])}, steps={r.choice([2, 4, 5])})")
+                        self.emit(f"mon.write({name}.get_color()[0])") if False else None
+                o = "none"
             if o == "set":
                 self.emit(f"{name}.set_color({self.arg(c[0])}, {self.arg(c[1])}, {self.arg(c[2])})")
             elif o == "on":
@@ -249,6 +270,43 @@ class ActGen:
                 self.emit(f"{name}.run_for({self.arg(dur)}, {self.arg(sp)})" if r.random() < 0.5 else f"{name}.run_for({self.arg(dur)}, speed={self.arg(sp)})")
         self.getters(kind, name)
 
+    def loop_varying(self):
+        """A command inside an ordinary for-loop whose argument is a variable that the loop body changes AFTER the command:
+        every iteration must act on the value the variable holds at that moment."""
+        r = self.r
+        kind, name, info = r.choice(self.devices)
+        self.nvar += 1
+        lv = f"lv{self.nvar}"
+        n = r.randint(2, 3)
+        if kind == "led":
+            v0, dv = r.choice([(10, 60), (200, -90), (0, 127)])
+            call = r.choice([f"{name}.set_brightness({lv})", f"{name}.blink({lv} % 7, times=1)"])
+            self.emit(f"{lv} = {v0}")
+            step = f"{lv} = {lv} + {dv}" if dv >= 0 else f"{lv} -= {-dv}"
+        elif kind == "rgb":
+            v0, dv = r.choice([(10, 60), (250, -100)])
+            call = r.choice([f"{name}.set_color({lv}, 5, {lv})", f"{name}.on({lv})"])
+            self.emit(f"{lv} = {v0}")
+            step = f"{lv} += {dv}" if dv >= 0 else f"{lv} = {lv} - {-dv}"
+        elif kind == "servo":
+            lo, hi = info["lo"], info["hi"]
+            v0, dv = float(lo), float((hi - lo) / 4)
+            call = f"{name}.write({lv})"
+            self.emit(f"{lv} = {fnum(v0)}")
+            step = f"{lv} = {lv} + {fnum(dv)}"
+        else:
+            v0, dv = r.choice([(-0.5, 0.5), (1.0, -0.25)])
+            call = r.choice([f"{name}.set_speed({lv})", f"{name}.run_for(2, {lv})"])
+            self.emit(f"{lv} = {v0}")
+            step = f"{lv} = {lv} + {dv}"
+        self.emit(f"for k{self.nvar} in range({n}):")
+        self.ind += 1
+        self.emit(call)
+        self.getters(kind, name)
+        self.emit(step)
+        self.ind -= 1
+        self.features.add("loop-varying-argument:" + kind)
+
     def generate(self):
         r = self.r
         self.lines = HDR.splitlines()
@@ -259,11 +317,15 @@ class ActGen:
             self.op()
             if r.random() < 0.2:
                 self.emit(f"sleep({r.choice([1, 5, 10])})")
+        if self.in_range and r.random() < 0.5:
+            self.loop_varying()
         if r.random() < 0.6:
             self.emit("while True:")
             self.ind = 1
             for _ in range(r.randint(1, 6)):
                 self.op()
+            if self.in_range and r.random() < 0.3:
+                self.loop_varying()
             self.emit(f"sleep({r.choice([1, 10, 25])})")
             self.ind = 0
             self.features.add("main-loop")
